@@ -9,7 +9,7 @@ C01).  The schema-inference sample (iterable_loader: 100 rows, load: sample_size
 in tableschema / tabulator and in `itertools.islice(.., SAMPLE_SIZE)` and is measured by the bounded end-to-end test.
 """
 from contracts.common import Item
-from contracts import streams as S, dumpers as DM, natives as N
+from contracts import streams as S, dumpers as DM, natives as N, base as BA
 from contracts import C17 as K17, C15 as K15, C14 as K14, C10 as K10
 
 TRUSTED = ['T1 pyvc model of Python (DESIGN 3)', 'T15 tabulator / tableschema iterate lazily apart from their sample', 'T16 z3 / cvc5']
@@ -36,5 +36,7 @@ ITEMS = [
     Item('DumperBase.process_resources', DM.sym_process_resources, [], DM.D + 'dumper_base.py::DumperBase.process_resources'),
     Item('DumperBase.row_counter', DM.sym_row_counter, [], DM.D + 'dumper_base.py::DumperBase.row_counter'),
     Item('FileDumper.rows_processor', DM.sym_rows_processor, [], DM.D + 'file_dumper.py::FileDumper.rows_processor'),
+    Item('iterable_storage.describe', BA.sym_iterable_storage, [], 'dataflows/helpers/iterable_loader.py::iterable_storage.describe'),
+    Item('LazyIterator+get_iterator', BA.sym_get_iterator, [], BA.B + 'datastream_processor.py::DataStreamProcessor.get_iterator'),
     Item('pipelines', None, [('look-ahead', N.nat_lookahead)], None),
 ]
